@@ -16,7 +16,7 @@ META = {
               'none of them writes to its arguments, as documented)'],
     'bounds': {'quick': 'records n=8 (objects) / n=4..6 (array functions), all samples symbolic; every in-place write on a '
                         'symbolic array is visible whatever the values; value-dependent branches are explored path by path',
-               'thorough': 'n=12 objects; mutator pairs'},
+               'thorough': 'n=12 objects; mutator pairs; object_pure n=8 (n=6 for functions with value-dependent control flow)'},
     'outside': ['in-place effects INSIDE compiled code (scipy.fftpack.fft(..., overwrite_x=True) in transform_w_scipy_fft): '
                 'not visible to a contract model', 'set_zero_residual_velocity(timezone=None) (symbolic integer window length)',
                 'integer-dtype records (real-valued kind only)'],
@@ -323,4 +323,6 @@ def obligations(tier, seed):
             nn = 4
         yield Ob('pure', {'fname': fname, 'n': nn}, query_ms=30000, timeout_s=600)
     for fname in _obj_table():
-        yield Ob('object_pure', {'fname': fname, 'n': 5 if q else 8}, query_ms=30000, timeout_s=600)
+        # value-dependent control flow doubles the path count per sample: n = 8 ran out of its 600 s budget for the switched
+        # peaks / power-law amplitude in the end-to-end thorough run, n = 6 is what the thorough tier claims for those
+        yield Ob('object_pure', {'fname': fname, 'n': 5 if q else (6 if fname in BRANCHY else 8)}, query_ms=30000, timeout_s=900)
